@@ -37,6 +37,17 @@ func hC06Same(t, u types.Type) bool {
 		if u, ok := u.(*types.ArrayType); ok {
 			return vfAnd(t.Len == u.Len, hC06Same(t.ElemType, u.ElemType))
 		}
+	case *types.FuncType:
+		if u, ok := u.(*types.FuncType); ok {
+			if len(t.Params) != len(u.Params) {
+				return false
+			}
+			r := vfAnd(t.Variadic == u.Variadic, hC06Same(t.RetType, u.RetType))
+			for i := range t.Params {
+				r = vfAnd(r, hC06Same(t.Params[i], u.Params[i]))
+			}
+			return r
+		}
 	case *types.StructType:
 		if u, ok := u.(*types.StructType); ok {
 			if len(t.Fields) != len(u.Fields) {
@@ -74,7 +85,14 @@ func VfC06_Parse() {
 	vf := "<" + vs + nd + " x float>"
 	vm := "<" + vs + md + " x i32>"
 	vc := "<" + vs + nd + " x i1>"
-	src := "declare " + iw + " @g(" + iw + ")\n" +
+	// the same types written through type aliases (`%VI = type <4 x i32>`, which
+	// LLVM resolves to the aliased type)
+	pre := ""
+	if vfChoice("alias", 2) == 1 {
+		pre = "%VI = type " + vi + "\n%VF = type " + vf + "\n"
+		vi, vf = "%VI", "%VF"
+	}
+	src := pre + "declare " + iw + " @g(" + iw + ")\n" +
 		"define void @f(" + vi + " %a, " + vi + " %b, " + vf + " %x, " + vf + " %y, " + vc + " %c, " + iw + "* %p, { " + iw + ", [3 x float] } %agg) {\n" +
 		"\t%i0 = icmp eq " + vi + " %a, %b\n" +
 		"\t%i1 = fcmp oeq " + vf + " %x, %y\n" +
@@ -153,12 +171,22 @@ func VfC06_ParseMore() {
 	vi := "<" + vs + nd + " x " + iw + ">"
 	vf := "<" + vs + nd + " x float>"
 	agg := "{ " + iw + ", [3 x float] }"
-	src := "declare " + iw + " @g(" + iw + ")\n" +
+	pre := ""
+	if vfChoice("alias", 2) == 1 {
+		pre = "%VI = type " + vi + "\n%VF = type " + vf + "\n%SIG = type " + iw + " (" + iw + ")\n"
+		vi, vf = "%VI", "%VF"
+	}
+	sig := iw + " (" + iw + ")"
+	if pre != "" {
+		sig = "%SIG"
+	}
+	src := pre + "declare " + iw + " @g(" + iw + ")\n" +
 		"declare i32 @pf(i8*, ...)\n" +
+		"declare " + iw + " (" + iw + ")* @getfp()\n" +
 		"define void @f(" + vi + " %a, " + vf + " %x, " + iw + "* %p, " + agg + " %agg, i8* %va) {\n" +
 		"\t%i0 = alloca " + iw + ", addrspace(" + ad + ")\n" +
 		"\t%i1 = alloca " + vi + ", i32 2, align 8, addrspace(" + ad + ")\n" +
-		"\t%i2 = call " + iw + " (" + iw + ") @g(" + iw + " 1)\n" +
+		"\t%i2 = call " + sig + " @g(" + iw + " 1)\n" +
 		"\t%i3 = call i32 (i8*, ...) @pf(i8* null, " + iw + " 1)\n" +
 		"\t%i4 = atomicrmw add " + iw + "* %p, " + iw + " 1 seq_cst\n" +
 		"\t%i5 = va_arg i8* %va, " + vi + "\n" +
@@ -174,6 +202,8 @@ func VfC06_ParseMore() {
 		"\t%i15 = sitofp " + vi + " %a to " + vf + "\n" +
 		"\t%i16 = lshr " + vi + " %a, %a\n" +
 		"\t%i17 = frem " + vf + " %x, %x\n" +
+		"\t%i18 = call " + iw + " (" + iw + ")* @getfp()\n" + // the callee returns a function pointer: the type in front is the return type
+		"\t%i19 = call " + iw + " %i18(" + iw + " 1)\n" + // call through that pointer
 		"\tret void\n}\n"
 	m, err := ParseString("t.ll", src)
 	vfReach("C06.parsemore")
@@ -194,8 +224,9 @@ func VfC06_ParseMore() {
 		ptr(it, as), ptr(vec(it), as), it, types.I32, it, vec(it), vec(it), vec(types.Float), types.I64,
 		types.NewStruct(it, types.NewArray(3, types.Float)), vec(it), ptr(it, as), ptr(vec(it), 0), it, ptr(vec(it), as),
 		vec(types.Float), vec(it), vec(types.Float),
+		ptr(types.NewFunc(it, it), 0), it,
 	}
-	insts := m.Funcs[2].Blocks[0].Insts
+	insts := m.Funcs[3].Blocks[0].Insts
 	vfAssert("C06.parsemore.count", len(insts) == len(want))
 	if len(insts) != len(want) {
 		return
@@ -218,7 +249,7 @@ func VfC06_ParseMore() {
 	if err2 != nil {
 		return
 	}
-	insts2 := m2.Funcs[2].Blocks[0].Insts
+	insts2 := m2.Funcs[3].Blocks[0].Insts
 	vfAssert("C06.parsemore.print-count", len(insts2) == len(want))
 	if len(insts2) != len(want) {
 		return
